@@ -9,6 +9,7 @@ use std::panic::{catch_unwind, AssertUnwindSafe};
 mod node;
 mod orswot;
 mod rpc;
+mod store;
 mod ts;
 
 pub trait Domain {
@@ -22,6 +23,7 @@ fn new_domain(name: &str, params: &[&str]) -> Option<Box<dyn Domain>> {
         "orswot" => Some(Box::new(orswot::OrswotDomain::new(params))),
         "rpc" => Some(Box::new(rpc::RpcDomain::new(params))),
         "node" => Some(Box::new(node::NodeDomain::new(params))),
+        "store" => Some(Box::new(store::StoreDomain::new(params))),
         _ => None,
     }
 }
